@@ -83,3 +83,11 @@ claim("C39", "mc-misc", "exploration",
       "exhaustive simplex-lattice matrix enumeration with brute-force alignment oracle",
       "Every [T,L] log-probability matrix with rows on a simplex lattice (T<=3, L<=3, denominators 4 and 5; thorough 65 sub-boxes up to T=7) x beam widths 1..12,16,20 x n-best 1..12: greedy equals the collapsed arg-max path and its score; beam results have distinct label sequences, finite scores on positive matrices, scores never above the exact log-probability (all alignments enumerated in f64) and exact when the beam is at least as wide as the number of distinct collapsed sequences.",
       "Tolerance 1e-4 on log scores; arg-max ties accept any maximal path.")
+claim("C11", "mc-shape", "exploration",
+      "exhaustive expression-tree x assignment enumeration against a checked i64 evaluator",
+      "All expression trees of depth <=2 over 12 leaves (constants incl. i32::MIN/MAX, two non-negative symbols, one free symbol) and depth <=1 over 14 leaves (thorough: depth 2 over 14 leaves and two depth-3 sub-boxes) x every assignment a,b in {0,1,2,3,5}, x in {-3..3}: simplify preserves the value wherever the original evaluates without division by zero/overflow/broadcast-precondition violation, range() contains it, is_positive implies >= 0, SymExpr::eval agrees with the reference.",
+      "Full depth 3 is out of reach (10^12 trees); constants outside the alphabet not covered.")
+claim("C10", "mc-shape", "exploration",
+      "exhaustive single-operator/chain model enumeration: inferred shapes and constants vs execution on every instantiation",
+      "189 catalogue entries (every operator with shape inference over its attribute grid, plus nine families of shape-arithmetic chains) x every fixed/symbolic mask of the input dims x value inputs as initializer or graph input x int/float constants; each variant is loaded (optimisation off), inferred with the real infer_shapes on the real graph, executed on every concrete instantiation, and every inferred rank, fixed dim, symbolic dim expression and constant value is compared with the produced value. Known findings listed in known_findings.json.",
+      "Symbolic dims are read back from their printed form (all readings considered); sizes <= 3; DFT/STFT inert (fft feature off).")
